@@ -49,12 +49,26 @@ class Opts:
         self.alias_prob = 0.0
         self.wizard_prob = 0.85
         self.py_wizard_prob = 0.2
+        # additive dimensions, off unless a property file turns them on (no RNG draw is made for them while they are 0)
+        self.enum_mixin_prob = 0.0      # an Enum leaf is a str / int mix-in Enum, IntEnum or StrEnum
+        self.enum_prob = None           # weight of Enum among the leaves (None: the historical 0.12)
+        self.sub_leaf_prob = 0.0        # a leaf is a user-defined subclass of one of `sub_bases` (model kind 'sub')
+        self.sub_bases = ['date', 'datetime']
         self.__dict__.update(kw)
 
 
-def gen_enum(rng):
+ENUM_MIXINS = {'int': ['int', 'IntEnum'], 'str': ['str', 'StrEnum']}
+
+
+def gen_enum(rng, o=None):
     name = fresh('E')
-    kind = rng.choice(['int', 'str', 'mixed'])
+    mixin = None
+    if o is not None and o.enum_mixin_prob > 0 and rng.random() < o.enum_mixin_prob:
+        # members of a mix-in Enum are values of the mixed-in type
+        kind = rng.choice(['int', 'str'])
+        mixin = rng.choice(ENUM_MIXINS[kind])
+    else:
+        kind = rng.choice(['int', 'str', 'mixed'])
     n = rng.randint(1, 4)
     members = []
     for i in range(n):
@@ -63,6 +77,8 @@ def gen_enum(rng):
         else:
             v = rng.choice(['x', 'yy', 'Zed', 'a b']) + str(i)
         members.append([f'M{i}', v])
+    if mixin is not None:
+        return T('enum', name=name, members=members, mixin=mixin)
     return T('enum', name=name, members=members)
 
 
@@ -87,8 +103,10 @@ def gen_type(rng, depth, o: Opts, hashable=False):
         choices = list(o.leaves)
         if hashable:
             choices = [c for c in choices if c not in ('any',)]
-        if o.allow_enum and rng.random() < 0.12:
-            return gen_enum(rng)
+        if o.sub_leaf_prob > 0 and rng.random() < o.sub_leaf_prob:
+            return T('sub', base=rng.choice(o.sub_bases), name=fresh('Sub'))
+        if o.allow_enum and rng.random() < (0.12 if o.enum_prob is None else o.enum_prob):
+            return gen_enum(rng, o)
         if o.allow_literal and rng.random() < 0.08:
             return gen_literal(rng)
         return T(rng.choice(choices))
@@ -123,6 +141,8 @@ def gen_type(rng, depth, o: Opts, hashable=False):
         kt = T(rng.choice(['str', 'str', 'str', 'int', 'date', 'uuid'])) if rng.random() < 0.8 else gen_type(rng, 0, o, True)
         # JSON object keys are text: keep key types whose text form loads back (str-valued Enum / Literal members)
         if kt['k'] == 'enum':
+            if kt.get('mixin') in ('int', 'IntEnum'):
+                kt['mixin'] = {'int': 'str', 'IntEnum': 'StrEnum'}[kt['mixin']]
             kt['members'] = [[m, v if isinstance(v, str) else f's{v}'] for m, v in kt['members']]
         elif kt['k'] == 'literal':
             kt['vs'] = [v for v in kt['vs'] if isinstance(v, str)] or ['only']
@@ -355,6 +375,10 @@ def gen_value(rng, t, built, size=3):
     if k == 'enum':
         E = built.get(t['name'])
         return rng.choice(list(E))
+    if k == 'sub':
+        return sub_value(built.get(t['name']), _gen_scalar(rng, t['base']))
+    if k == 'annpat':
+        return gen_value(rng, a[0], built, size)
     if k == 'literal':
         return rng.choice(t['vs'])
     if k == 'optional':
@@ -398,6 +422,17 @@ def gen_value(rng, t, built, size=3):
     if k == 'cls':
         return gen_instance(rng, t, built, size - 1)
     raise ValueError(k)
+
+
+def sub_value(cls, v):
+    """the value v of a stdlib leaf type as an instance of its subclass `cls`"""
+    if isinstance(v, dt.datetime):
+        return cls(v.year, v.month, v.day, v.hour, v.minute, v.second, v.microsecond, tzinfo=v.tzinfo)
+    if isinstance(v, dt.date):
+        return cls(v.year, v.month, v.day)
+    if isinstance(v, dt.time):
+        return cls(v.hour, v.minute, v.second, v.microsecond, tzinfo=v.tzinfo)
+    return cls(v)
 
 
 def _hashable(x):
